@@ -75,8 +75,11 @@ func timeInDomain(p Prm, t time.Time) string {
 	if p.HasTag && !p.Explicit && p.Time != "generalized" && !inUTCTimeRange(y) {
 		return "implicit time outside 1950..2049 without generalized"
 	}
-	if p.Optional && t.Unix() == zeroUnix && off == 0 && t.Nanosecond() != 0 {
-		return "optional time at the zero instant that is not time.Time{}"
+	// A time at the zero instant with a sub-second part is not time.Time{}, but reads back as time.Time{} (times travel
+	// to the second). Where the field itself or ANY enclosing struct is OPTIONAL, the decoded value can then be a zero
+	// value that Marshal leaves out, so the re-marshalled bytes differ. The documented domain has no such time.
+	if t.Unix() == zeroUnix && off == 0 && t.Nanosecond() != 0 {
+		return "time at the zero instant that is not time.Time{}"
 	}
 	return ""
 }
